@@ -1,0 +1,50 @@
+//go:build verif
+
+package exif2
+
+import (
+	"time"
+
+	"github.com/evanoberholster/imagemeta/exif2/ifds"
+	"github.com/evanoberholster/imagemeta/exif2/tag"
+	"github.com/evanoberholster/imagemeta/meta/utils"
+)
+
+// VerifPoisonPool takes several buffers from the pool, overwrites their scratch bytes and tag slots
+// deterministically from seed (seed 0: all zero, the state of a fresh process) and puts them back.
+func VerifPoisonPool(seed int) {
+	var bs []*buffer
+	for i := 0; i < 4; i++ {
+		bs = append(bs, bufferPool.Get().(*buffer))
+	}
+	for _, b := range bs {
+		if seed == 0 {
+			*b = buffer{}
+		} else {
+			for i := range b.buf {
+				b.buf[i] = byte(seed + i*7)
+			}
+			for i := range b.tag {
+				b.tag[i] = Tag{ValueOffset: uint32(seed) * uint32(1000*(i+1)), UnitCount: uint32(seed%7 + 1), ID: tag.ID(0x010f + i),
+					Type: tag.TypeASCII, Ifd: ifds.IFD0, ByteOrder: utils.LittleEndian}
+			}
+			b.len = 0
+			b.pos = 0
+		}
+		bufferPool.Put(b)
+	}
+}
+
+// VerifResetTimeZones empties the time-zone cache.
+func VerifResetTimeZones() {
+	mutexTimeZones.Lock()
+	cacheTimeZone = map[int32]*time.Location{}
+	mutexTimeZones.Unlock()
+}
+
+// VerifTimeZoneCacheLen reports the number of cached zones.
+func VerifTimeZoneCacheLen() int {
+	mutexTimeZones.RLock()
+	defer mutexTimeZones.RUnlock()
+	return len(cacheTimeZone)
+}
